@@ -207,9 +207,16 @@ func c12walk(ro *onet.Roster, t *onet.Tree, w c12want) (string, string, bool) {
 	return "", "", false
 }
 
-// c12bigTimeout is generous: a tree of 2000 nodes takes milliseconds.
+// c12bigTimeout is generous: a tree of 2000 nodes takes milliseconds. (10 s: on a machine with a load of 25 a
+// goroutine was seen to wait several seconds for a processor.)
 func c12bigTimeout(nodes int) time.Duration {
-	return 3*time.Second + time.Duration(nodes)*5*time.Millisecond
+	return 10*time.Second + time.Duration(nodes)*5*time.Millisecond
+}
+
+// c12serversTimeout: calls that create real servers (LocalTest, simulations: listeners, databases on disk) — under
+// load the creation of four local servers was seen to take more than 8 s (false alarm lt-hang, seed 2, round 5)
+func c12serversTimeout(nodes int) time.Duration {
+	return 60*time.Second + time.Duration(nodes)*5*time.Millisecond
 }
 
 func c12exec(c *h.Ctx, cs *h.Case) {
@@ -366,7 +373,7 @@ func c12exec(c *h.Ctx, cs *h.Case) {
 					if r != nil {
 						panic(r)
 					}
-				case <-time.After(c12bigTimeout(nodes) + 5*time.Second):
+				case <-time.After(c12serversTimeout(nodes)):
 					obs = "hang"
 					hung = true
 					cs.Fail("lt-hang", "the LocalTest generator did not return — "+op)
@@ -658,7 +665,7 @@ func c12exec(c *h.Ctx, cs *h.Case) {
 					if r != nil {
 						panic(r)
 					}
-				case <-time.After(c12bigTimeout(hosts) + 10*time.Second):
+				case <-time.After(c12serversTimeout(hosts)):
 					obs = "hang"
 					hung = true
 					cs.Fail("sim-hang", "CreateRoster/CreateTree did not return — "+op)
